@@ -27,6 +27,8 @@ import MW.Lemmas.TxmgrCodecRec
 import MW.Lemmas.LedBytesInv
 import MW.Lemmas.LedBytesWorld
 import MW.Lemmas.LedBytesConnect
+import MW.Lemmas.LedBytesEx
+import MW.Lemmas.LedBytesFullFalse
 namespace MW.Props.C01
 open MW MW.Model.Ledger MW.Spec.Chain MW.Spec.Books MW.Lemmas.Ledger
 
@@ -629,6 +631,11 @@ def ledger_on_bytes_full : Prop :=
     ∃ (stepB : SB → TxRec → Model.TxmgrCodec.BlockMetaB → M SB), ∀ (sb : SB) (tr : TxRec) (blk : Model.TxmgrCodec.BlockMetaB),
       CanonS E sb.1 → (stepB sb tr blk).map (absSB E) = addRelevantMined p own (absStore E sb.1) (absBals E.N sb.2) tr (nmBlk E.N blk)
 
+/-- (Round 6) … and it IS false: with the Latin-1 naming every credit key a byte bucket decodes to carries a tx id of
+    exactly 32 characters, while `addRelevantMined` on a record with tx id "x" creates a credit under "x" — so no byte-level
+    step can simulate it.  The width / naming hypotheses of `ledger_on_bytes` are necessary -/
+theorem ledger_on_bytes_full_false : ¬ ledger_on_bytes_full := MW.LedBytes.full_false
+
 /-- `inv_on_bytes`: C01's invariant transfers to the byte store along any simulated step: if the byte-level step
     `fB` simulates the ledger step `f` (and keeps the store canonical) and C01 shows `f` takes `Inv … chain` to
     `Inv … chain'` (connect_sound, disconnect_sound, handler_step …), then `fB` succeeds and takes `InvB … chain` to
@@ -707,6 +714,33 @@ theorem ledger_correct_on_bytes {E : MW.LedBytes.Env} (e : Lemmas.Ledger.Env) (G
         (runWB pbB w0 evs).v.best = tipMeta (runWB pbB w0 evs).chain :=
   MW.LedBytes.ledger_correct_on_bytes e G hs w0 evs H h0 hv0 hq0
 
+/-- (Round 6) `process_block_on_bytes` — ONE WHOLE HANDLER STEP (connect and reorg) ON BYTES.  The follower's control
+    structure (alignNew, disconnectDown, the lock-step walk back, connectAll, the volatile update) touches the store only
+    through four primitives; `Prims` packages byte-level versions with their simulations under an invariant `I` they keep
+    (`primsOf`: `disconnectBlockB` / `filterBlockB` / the sync bucket / bucket `ws` are such a package for any `I` that
+    implies their local run hypotheses `Good`).  Then: abstraction of the resulting bytes = the resulting ledger store, same
+    volatile state and verdict, `I` kept — through every loop of reorg, every error exit and every fuel bound -/
+theorem process_block_on_bytes {E : MW.LedBytes.Env} {c : Ctx} (Pr : Prims E c) (hchain : ∀ x ∈ c.node.chain, Pr.BlkOK x)
+    {bs : BStore} (hI : Pr.I bs) {v : Vol} (hbest : v.best.height < collisionHeight) {b : Block} (hb : Pr.BlkOK b) :
+    absStore E (processBlockB Pr bs v b).1 = (processBlock c (absStore E bs) v b).1 ∧
+    (processBlockB Pr bs v b).2 = (processBlock c (absStore E bs) v b).2 ∧
+    Pr.I (processBlockB Pr bs v b).1 :=
+  processBlock_on_bytes Pr hchain hI hbest hb
+
+/-- (Round 6) `ledger_correct` ON THE BYTE STORE WITH THE CONCRETE HANDLER `processBlockB`: along any history whose worlds
+    satisfy the invariant of the primitives and the block-fitness conditions (`AllW Hd.pbB Hd.W`: all are SIZE conditions —
+    heights below the "syncedto" collision height 0x73796e636564746f, balances < 2^64, fewer than 2^32 - 1 relevant
+    transactions per block, hash / time widths), with an empty queue the bytes are canonical and decode to exactly the books
+    of the node's best chain.  What remains for an unconditional statement: derive `AllW` from C01's `Inv` + a supply bound,
+    and replace the relevance oracle by filterTx on bytes (its store reads commute: `filter_tx_reads_on_bytes`) -/
+theorem ledger_correct_on_bytes_run {E : MW.LedBytes.Env} (e : Lemmas.Ledger.Env) (G : Block) (Hd : Handler E e)
+    (w0 : WorldB) (evs : List Ev) (H : RunHyp e G (absW E w0) evs) (hA : AllW Hd.pbB Hd.W w0 evs)
+    (h0 : InvB E (e.ctx w0.chain) w0.bs w0.chain) (hv0 : w0.v.best = tipMeta w0.chain) (hq0 : w0.queue = []) :
+    (runWB Hd.pbB w0 evs).queue = [] →
+      InvB E (e.ctx (runWB Hd.pbB w0 evs).chain) (runWB Hd.pbB w0 evs).bs (runWB Hd.pbB w0 evs).chain ∧
+        (runWB Hd.pbB w0 evs).v.best = tipMeta (runWB Hd.pbB w0 evs).chain :=
+  MW.LedBytes.ledger_correct_on_bytes_run e G Hd w0 evs H hA h0 hv0 hq0
+
 -- the hypotheses are satisfiable: an injective naming, the empty (canonical) database abstracting to the empty ledger
 -- store, a well-formed step and relevant output, a well-formed spent credit
 example : Names := asciiNames
@@ -716,6 +750,17 @@ example : RelB.WF asciiNames ⟨0, List.replicate 42 0x61, false, 1000, .stk 10,
   ⟨by decide, by decide, by decide, by decide, rfl⟩
 example : wfCredit (⟨5, true, false, .staking, 11, List.replicate 32 1⟩,
     some ⟨List.replicate 32 2, ⟨3, List.replicate 32 4⟩, 0⟩) := ⟨⟨by decide, by decide, by decide⟩, rfl, fun _ h => by cases h; decide⟩
+-- Round 6: a keystore knowing one address with its byte-level reading (`PendEnv`, `RbEnv`), a byte-level record that is
+-- well-formed and abstracts to a ledger-model record, and the byte-level AddRelevantTx succeeding on it from the empty
+-- database (one entry each in `c`, `u`, `b`, `t`)
+example : PendEnv MW.LedBytes.Ex.E0 MW.LedBytes.Ex.own0 := MW.LedBytes.Ex.P0
+example : RbEnv MW.LedBytes.Ex.E0 MW.LedBytes.Ex.c0 := MW.LedBytes.Ex.R0
+example : MW.LedBytes.Ex.trB0.WF MW.LedBytes.Ex.E1 ∧ MW.LedBytes.Ex.trB0.Abs MW.LedBytes.Ex.E1 MW.LedBytes.Ex.tr0 :=
+  ⟨MW.LedBytes.Ex.trB0_wf, MW.LedBytes.Ex.trB0_abs⟩
+example : ∃ sb', addRelevantMinedB {} (fun bs => bs) MW.LedBytes.Ex.trB0 ⟨5, MW.LedBytes.Ex.h32 9⟩ 77 ({}, []) = .ok sb' ∧
+    sb'.1.c.length = 1 ∧ sb'.1.u.length = 1 ∧ sb'.1.b.length = 1 ∧ sb'.1.t.length = 1 := MW.LedBytes.Ex.step0_ok
+example : (⟨List.replicate 32 1, 5, [List.replicate 32 2, List.replicate 32 3]⟩ : Model.TxmgrCodec.BlockRecB).WF :=
+  ⟨by decide, by decide, by decide, by decide, by decide⟩
 end LedBytes
 
 end MW.Props.C01
